@@ -7,13 +7,22 @@
 (* canonical after every operation (X07's invariant, here the signer's       *)
 (* precondition), hence what each entry point hands to sign_raw is           *)
 (* SignedData of the RRset the content denotes, and the signature verifies   *)
-(* over the RRset presented in any order.  Every maximal behaviour is an     *)
+(* over the RRset presented in any order.  Between the additions the        *)
+(* collection is edited (at most MaxEdits times): remove_first / remove_all  *)
+(* of an owner [and type] - the records removed may arrive again later, by   *)
+(* insert() or extend() - and update_data() of a stored record to data that  *)
+(* sorts before, after or onto its siblings.  Every maximal behaviour is an  *)
 (* S->I case with the collection after every operation and the octets per    *)
 (* RRset.  Mutant = TRUE replaces insert() by one with a careless "append    *)
 (* at the end" fast path: the laws must fail (sensitivity of the model).     *)
 EXTENDS SignerInput, Json
 
 CONSTANTS MaxRecs,     \* menus of at most this many records
+          MaxEdits,    \* removals / updates per behaviour
+          EditRecs,    \* edits in zones of at most this many records
+          EditAnywhere, \* BOOLEAN: edits at any point of any behaviour; FALSE: once all records
+                       \* have arrived one at a time (the collection has no state but its
+                       \* content, which is the same whatever the route - InputIsContent)
           Mutant       \* BOOLEAN
 
 la == <<97>>  lA == <<65>>  lb == <<98>>  ex == <<101, 120>>  EX == <<69, 88>>
@@ -34,7 +43,8 @@ soa == SR!Rec(<<ex>>, 6, 3600, <<0, 0, 0, 0, 0, 1, 0, 0, 14, 16, 0, 0, 3, 132, 0
 n1  == SR!Rec(<<ex>>, 2, 3600, <<2, 110, 50, 0>>)   n2 == SR!Rec(<<EX>>, 2, 3600, <<2, 110, 49, 0>>)
 
 \* every menu holds the SOA (sign_zone wants one)
-Menus == {m \in { {soa, a2, a1}, {soa, a3, a1, a2}, {soa, a2, a2c, a1}, {soa, a4c, a1, a9},
+Menus == {m \in { {soa, a2, a1}, {soa, tx, ty}, {soa, w1, w2}, {soa, u1, u2}, {soa, n1, n2}, {soa, a4c, a1},
+                  {soa, a3, a1, a2}, {soa, a2, a2c, a1}, {soa, a4c, a1, a9},
                   {soa, tx, txt, a1}, {soa, b2, b1, a1}, {soa, w1, w2, tx}, {soa, u1, u2, b1},
                   {soa, n1, n2, ty}, {soa, tx, ty, a2},
                   {soa, a3, a1, a2, a9}, {soa, a2, a1, b2, b1}, {soa, n1, n2, w1, w2}, {soa, a4c, a2c, a2, txt} }
@@ -43,10 +53,10 @@ Menus == {m \in { {soa, a2, a1}, {soa, a3, a1, a2}, {soa, a2, a2c, a1}, {soa, a4
 Key == [flags |-> 256, proto |-> 3, alg |-> 15, pub |-> [i \in 1..32 |-> (i * 7 + 3) % 256]]
 X == [key |-> Key, keyOwner |-> Apex, inc |-> <<0, 0, 0, 0>>, exp |-> <<0, 0, 0, 100>>]
 
-VARIABLES coll, pending, arrived, hist
-vars == <<coll, pending, arrived, hist>>
+VARIABLES coll, pending, arrived, hist, edits
+vars == <<coll, pending, arrived, hist, edits>>
 
-Init == coll = <<>> /\ arrived = <<>> /\ hist = <<>> /\ pending \in Menus
+Init == coll = <<>> /\ arrived = <<>> /\ hist = <<>> /\ pending \in Menus /\ edits = 0
 
 \* the seeded class as a mutant of the specification: the new record goes to
 \* the end when its (owner, type) is not below the last record's - and its
@@ -59,14 +69,61 @@ FastInsert(c, r) ==
   ELSE SR!Insert(c, r)
 InsertOp(c, r) == IF Mutant THEN FastInsert(c, r) ELSE SR!Insert(c, r)
 
+NoKey == [n |-> <<>>, t |-> 0]
+Log(op, recs, key, ok, c) ==
+  hist' = Append(hist, [op |-> op, recs |-> recs, name |-> key.n, t |-> key.t, ok |-> ok, after |-> c])
 Step(op, recs, ok, c) ==
-  /\ coll' = c /\ arrived' = arrived \o recs
-  /\ hist' = Append(hist, [op |-> op, recs |-> recs, ok |-> ok, after |-> c])
+  /\ coll' = c /\ arrived' = arrived \o recs /\ edits' = edits
+  /\ Log(op, recs, NoKey, ok, c)
 
 DoInsert ==
   \E r \in pending :
      LET x == InsertOp(coll, r)
      IN Step("insert", <<r>>, x.res.ok, x.coll) /\ pending' = pending \ {r}
+
+\* ---- edits.  What the caller holds (arrived: the records of the zone in the
+\* order they came) follows: a record removed is gone in every spelling, an
+\* updated record takes the place of the old one.
+MayEdit == /\ edits < MaxEdits /\ coll # <<>> /\ Cardinality(pending) + Len(coll) <= EditRecs
+           /\ EditAnywhere \/ (pending = {} /\ \A i \in 1..Len(hist) : hist[i].op = "insert")
+\* remove_first / remove_all are called with an owner and Some(type) or None
+EditKeys == {[n |-> coll[i].n, t |-> coll[i].t] : i \in 1..Len(coll)}
+            \cup {[n |-> coll[i].n, t |-> 0] : i \in {j \in 1..Len(coll) : \E k \in 1..Len(coll) :
+                                                          NameEq(coll[j].n, coll[k].n) /\ coll[j].t # coll[k].t}}
+Gone(before, after) == SelectSeq(before, LAMBDA r : ~SR!Holds(after, r))
+Removal(op, k, x) ==
+  LET gone == Gone(coll, x.coll)
+  IN /\ coll' = x.coll /\ edits' = edits + 1
+     /\ arrived' = SelectSeq(arrived, LAMBDA r : ~SR!Holds(gone, r))
+     /\ pending' = pending \cup SR!Range(gone)          \* they may arrive again
+     /\ Log(op, <<>>, k, x.res, x.coll)
+DoRemoveFirst == MayEdit /\ \E k \in EditKeys : Removal("remove_first", k, SR!RemoveFirst(coll, k.n, k.t))
+DoRemoveAll   == MayEdit /\ \E k \in EditKeys : Removal("remove_all", k, SR!RemoveAll(coll, k.n, k.t))
+
+\* update_data(matcher of one stored record, new data): data that sorts first,
+\* last, or is the data of a sibling
+LowRd(t)  == IF t = 1 THEN <<0, 0, 0, 0>> ELSE <<0>>
+HighRd(t) == CASE t = 1 -> <<255, 255, 255, 255>> [] t = 2 -> <<1, 255, 0>> [] t = 16 -> <<3, 255, 255, 255>>
+               [] OTHER -> <<255>>
+NewData(r) == ({s.rd : s \in {x \in SR!Range(coll) : NameEq(x.n, r.n) /\ x.t = r.t}}
+               \cup {LowRd(r.t), HighRd(r.t)}) \ {r.rd}
+ReplaceFirst(s, old, new) ==      \* new = <<>>: the record is dropped
+  LET i == SR!FirstIdx(s, old)
+  IN IF i = 0 THEN s
+     ELSE SubSeq(s, 1, i - 1) \o new \o SelectSeq(SubSeq(s, i + 1, Len(s)), LAMBDA r : ~SR!Same(r, old))
+DoUpdate ==
+  /\ MayEdit
+  \* (one TTL per RRset: not where the zone has the record under another TTL)
+  /\ \E i \in {j \in 1..Len(coll) : /\ coll[j].t # SR!T_SOA
+                                     /\ \A s \in pending \cup SR!Range(arrived) :
+                                           NameEq(s.n, coll[j].n) /\ s.t = coll[j].t => s.ttl = coll[j].ttl} :
+     \E nd \in NewData(coll[i]) :
+       LET old == coll[i]
+           new == [old EXCEPT !.rd = nd]
+           x == SR!UpdateData(coll, old, [t |-> old.t, rd |-> nd])
+       IN /\ coll' = x.coll /\ edits' = edits + 1 /\ pending' = pending
+          /\ arrived' = ReplaceFirst(arrived, old, IF SR!Holds(coll, new) THEN <<>> ELSE <<new>>)
+          /\ Log("update", <<old, new>>, NoKey, TRUE, x.coll)
 \* the rest at once, in every order
 DoBatch ==
   /\ pending # {}
@@ -76,7 +133,7 @@ DoBatch ==
 DoFrom == hist = <<>> /\ DoBatch
 DoExtend == hist # <<>> /\ DoBatch
 
-Next == DoInsert \/ DoFrom \/ DoExtend
+Next == DoInsert \/ DoFrom \/ DoExtend \/ DoRemoveFirst \/ DoRemoveAll \/ DoUpdate
 Spec == Init /\ [][Next]_vars
 
 --------------------------------------------------------------------------
@@ -100,6 +157,7 @@ RecJ(r) == [r EXCEPT !.n = LowerName(@)]
 GroupJ(g) == LET rrs == ToRrs(g)
              IN [n |-> LowerName(g[1].n), t |-> g[1].t, len |-> Len(g),
                  sig0 |-> Fields(X, rrs), handed |-> Trusting(X, rrs)]
+Rev(s) == [i \in 1..Len(s) |-> s[Len(s) + 1 - i]]
 \* the entry points, and what each hands to sign_raw per RRset of the zone
 Entries ==
   LET d  == SR!Rrsets(SR!Extend(coll, <<>>).coll)
@@ -114,13 +172,18 @@ Entries ==
       zone_nsec_inplace |-> hr,
       zone_nsec_into |-> hp,
       zone_nsec3_inplace |-> hr,
-      zone_nsec3_into |-> hp]
+      zone_nsec3_into |-> hp,
+      \* the validator's side: RrsigExt::signed_data of the RRSIG over the
+      \* caller's records in reverse arrival order rebuilds the same octets
+      validator |-> [i \in 1..Len(d) |->
+                       ValidatorOctets(Fields(X, ToRrs(d[i])), Rev(ToRrs(SliceOf(arrived, d[i]))))]]
 EntriesAreRfc == pending = {} =>
   LET es == Entries  rfc == HandedRfc(X, coll) IN \A e \in DOMAIN es : es[e] = rfc
 Emit == pending = {} =>
   PrintT("CASE " \o ToJson(
     [in  |-> [kind |-> "sinput", apex |-> Apex, key |-> X.key, keyOwner |-> X.keyOwner, inc |-> X.inc, exp |-> X.exp,
-              ops |-> [i \in 1..Len(hist) |-> [op |-> hist[i].op, recs |-> hist[i].recs]],
+              ops |-> [i \in 1..Len(hist) |-> [op |-> hist[i].op, recs |-> hist[i].recs,
+                                                name |-> hist[i].name, t |-> hist[i].t]],
               \* per RRset of the content: the caller's own slice of it (arrival order)
               slices |-> LET d == SR!Rrsets(SR!Extend(coll, <<>>).coll)
                          IN [i \in 1..Len(d) |-> SliceOf(arrived, d[i])]],
